@@ -38,8 +38,24 @@ func checkAccountBalance(g *GenesisConfig, addr types.Address, required map[type
 	return nil
 }
 
+// CheckUniqueAddresses rejects an address listed twice: the builder applies the entries one
+// after the other (last balance wins) while the validators add them up.
+func CheckUniqueAddresses(g *GenesisConfig) error {
+	seen := make(map[types.Address]struct{}, len(g.GenesisBlocks.Blocks))
+	for _, block := range g.GenesisBlocks.Blocks {
+		if _, ok := seen[block.Address]; ok {
+			return errors.Errorf("address %v is listed more than once in GenesisBlocks", block.Address)
+		}
+		seen[block.Address] = struct{}{}
+	}
+	return nil
+}
+
 func CheckGenesis(g *GenesisConfig) error {
 	if err := CheckFieldsExist(g); err != nil {
+		return err
+	}
+	if err := CheckUniqueAddresses(g); err != nil {
 		return err
 	}
 	if err := CheckPlasmaInfo(g); err != nil {
